@@ -38,7 +38,7 @@ def mkCfg (args : List String) : Cfg :=
   let on (k : String) : Bool := args.contains (k ++ "=true")
   let v : ArgMapper.Variant := ⟨!(off "r5SkipSame"), !(off "r6NameTest"), !(off "r8SkipSupplied")⟩
   let fl : Flags := ⟨v, !(off "memoCopy"), !(off "publishAfterUpdate"), !(off "trackReaching"),
-    !(off "takeValuedNamed"), on "skipRecordsInput", !(off "dupIsError")⟩
+    !(off "takeValuedNamed"), on "skipRecordsInput", !(off "dupIsError"), !(off "hopCopies")⟩
   ⟨!(off "fixedReverse"), !(off "vsetValidates"), fl⟩
 
 partial def readAll (h : IO.FS.Stream) (acc : Array String) : IO (Array String) := do
